@@ -269,6 +269,16 @@ func checkIgnoreAndCwd(c *c15Case) (key, msg string, stats map[string]int) {
 		{"cwd=unrelated,relative", filepath.Join(w.Root, "elsewhere"), []string{rel(filepath.Join(w.Root, "elsewhere"))}},
 		{"cwd=unrelated,absolute", filepath.Join(w.Root, "elsewhere"), []string{file}},
 	}
+	// from a directory outside the repository whose path starts with the repository's path (repo2,
+	// repo-old), and from the root by a path that leaves the repository and comes back
+	if c.Sibling != "" {
+		sib := filepath.Join(w.Root, c.Sibling)
+		invs = append(invs,
+			inv{"cwd=prefix-sharing-sibling,relative", sib, []string{rel(sib)}},
+			inv{"cwd=prefix-sharing-sibling,absolute", sib, []string{file}},
+		)
+	}
+	invs = append(invs, inv{"cwd=repo-root,out-and-back", repoRoot, []string{filepath.Join("..", filepath.Base(repoRoot), rel(repoRoot))}})
 	// the same repository reached through a symbolic link to its root directory
 	link := filepath.Join(w.Root, "elsewhere", "link-to-repo")
 	if err := os.Symlink(repoRoot, link); err == nil {
@@ -411,7 +421,7 @@ func TestC15(t *testing.T) {
 		t.Fatalf("actionlint binary not built: %v", err)
 	}
 	hx.Main(t, "C15", func(r *hx.Run) {
-		r.Rule = "temporary world: a repository (optionally nested two levels down, optionally next to a sibling repository whose name shares its prefix and whose configuration ignores everything) with a workflow producing 0-8 distinct diagnostics (now and then a file that is not YAML, not a mapping, or has no jobs), a configuration with 0-3 `paths` globs (matching all yaml, the workflows directory, the exact file, nothing; with *, **, ?, [a-c], [!x] and {a,b} forms) each with ignore regexes, and 0-3 -ignore regexes; regexes are escaped fragments of the unfiltered messages (matching none/some/all), also with inline flags such as (?i). Each world is run through the built actionlint binary from 16 (cwd, path spelling) combinations: repository root / parent / nested / unrelated directory x relative / ./ / absolute / no argument, plus four spellings through a symbolic link to the repository root; when a sibling repository exists, also the observed file together with a file of the sibling in one invocation (both orders). Oracle: output = unfiltered list (same world without configuration and -ignore) minus messages matched by an applicable pattern (glob matched against the repository-relative path by the harness), identical for all combinations; exit status 1 iff diagnostics remain, 0 iff none, 3 for an invalid regex, 2 for an invalid flag. Non-trivial = >= 1 diagnostic removed and >= 1 kept, or a matching `paths` glob with cwd != repository root; distinct = case hash."
+		r.Rule = "temporary world: a repository (optionally nested two levels down, optionally next to a sibling repository whose name shares its prefix and whose configuration ignores everything) with a workflow producing 0-8 distinct diagnostics (now and then a file that is not YAML, not a mapping, or has no jobs), a configuration with 0-3 `paths` globs (matching all yaml, the workflows directory, the exact file, nothing; with *, **, ?, [a-c], [!x] and {a,b} forms) each with ignore regexes, and 0-3 -ignore regexes; regexes are escaped fragments of the unfiltered messages (matching none/some/all), also with inline flags such as (?i). Each world is run through the built actionlint binary from 17-19 (cwd, path spelling) combinations: repository root / parent / nested / unrelated directory x relative / ./ / absolute / no argument, plus four spellings through a symbolic link to the repository root, a path that leaves the repository and comes back, and the prefix-sharing sibling directory as cwd; when a sibling repository exists, also the observed file together with a file of the sibling in one invocation (both orders). Oracle: output = unfiltered list (same world without configuration and -ignore) minus messages matched by an applicable pattern (glob matched against the repository-relative path by the harness), identical for all combinations; exit status 1 iff diagnostics remain, 0 iff none, 3 for an invalid regex, 2 for an invalid flag. Non-trivial = >= 1 diagnostic removed and >= 1 kept, or a matching `paths` glob with cwd != repository root; distinct = case hash."
 		r.Assumptions = []string{"file names are plain ASCII", "regexes are built from escaped message fragments so that the reference (Go regexp on messages) cannot disagree about regexp semantics"}
 		r.Check(t, "worlds", hx.N(150, 4000), func(rt *rapid.T) {
 			var wfb strings.Builder
